@@ -397,6 +397,7 @@ def check(ctx, rep):
     prog = ctx.prog
     eff = Effects(prog, ctx.resolver)
     rep.rule("R05a", "selector encoder (renderobjinfo) and decoder (handle) of each URL-based protocol use the same codec; one decoding layer; safe chars exclude separators", floor=3)
+    rep.rule("R05h", "= R13e: names taken from file content (HTML titles, mail subjects) are whitespace-collapsed, so the tab-separated menu line keeps its fields", floor=2)
     rep.rule("R05b", "WAP prefix: same configuration value rendered and stripped; Gemini query prefix: same class constant", floor=2)
     rep.rule("R05g", "each URL-based protocol maps a request target to the selector it names (evaluated on 12 targets per protocol)", floor=3)
     rep.rule("R05f", "WAP prefix: only paths below the prefix are WAP by path; names merely starting with its letters are not", floor=6)
@@ -588,6 +589,9 @@ def check(ctx, rep):
 
     wap_prefix_boundary(ctx, rep, "R05f")
     request_target_evaluation(ctx, rep, "R05g")
+    from .c13 import name_sink_obligations
+    name_sink_obligations(ctx, rep, "R05h", "text from file content becomes an entry name without whitespace collapsing: a TAB or line break in it shifts "
+                          "the fields of the Gopher menu line, so the client follows a selector and host that are not the entry's")
 
     # ------------------------------------------------------------------ R05c
     virt = ctx.cls("handlers.virtual.Virtual")
@@ -753,6 +757,52 @@ def wap_prefix_boundary(ctx, rep, rule="R05f"):
                 key=f"{rule}|{path}")
 
 
+def rendered_targets(ctx, P, selector, etype):
+    """The link target(s) protocol class P renders for a local entry (no host, no port) with this selector and type:
+    renderobjinfo() evaluated by the walker with the entry modelled by its getters.  None = not determined."""
+    import html as _html
+    import re as _re
+
+    from ..paths import Const, Walker
+
+    prog = ctx.prog
+    ro = prog.resolve_method(P, "renderobjinfo")
+    if ro is None or len(ro.params) < 2:
+        return None
+    eparam = ro.params[1]
+    vals = {"getselector": selector, "gettype": etype, "getname": "Name", "gethost": None, "getport": None, "getmimetype": "text/plain",
+            "getnum": 0, "getsize": None, "getlanguage": None}
+
+    def cv(call, target, st):
+        f = call.func
+        if isinstance(f, ast.Attribute) and isinstance(f.value, ast.Name) and f.attr in vals:
+            return Const(vals[f.attr])
+        if isinstance(f, ast.Attribute) and f.attr == "getimgtag":
+            return Const("")
+        if isinstance(f, ast.Attribute) and f.attr == "has_option" and "config" in norm(f.value):
+            return Const(False)
+        return None
+
+    facts = {"self.waptop": Const("/WAPTOP"), "self.accesskeyidx": Const(0), "self.postfieldidx": Const(0)}
+    w = Walker(prog, ctx.resolver, assumptions=facts, sticky={"self.waptop"}, call_value=cv, exact_loops=True, unroll=4,
+               inline=lambda fn, t, d: d < 3 and fn.name != "getimgtag" and (t.bound_cls is not None or (fn.cls is None and ".protocols" in fn.module.name)))
+    outs = set()
+    try:
+        paths = w.run(ro, P, facts=dict(facts))
+    except Exception:
+        return None
+    for p in paths:
+        if p.kind != "return" or p.value is None or p.value.kind != "const" or not isinstance(p.value.value, str):
+            return None
+        text = p.value.value
+        found = [_html.unescape(m) for m in _re.findall(r'(?i)(?:href|action)="([^"]*)"', text)]
+        found += _re.findall(r"(?m)^=[>:] (\S+)", text)
+        outs.add(tuple(found))
+    if len(outs) != 1:
+        return None
+    return list(next(iter(outs)))
+
+
 # ---------------------------------------------------------------------------- R05g
 def request_target_evaluation(ctx, rep, rule="R05g"):
     """What each URL-based protocol's handle() makes of a request target, evaluated by the walker on representative
@@ -766,9 +816,32 @@ def request_target_evaluation(ctx, rep, rule="R05g"):
 
     names = ["/docs/a b.txt", "/notes;2.txt", "/a?b", "/a#b", "/caf\udce9.txt", "/x&y=z,w+v$", "/résumé.txt", "/dir/sub", "/100%"]
 
-    def targets():
+    render_problems = {}
+
+    def targets(P=None, qual=""):
         for nme in names:
-            yield up.quote(nme, errors="surrogateescape"), nme, "as advertised"
+            done = False
+            if P is not None:
+                for et in ("0", "1", "7"):
+                    rt = rendered_targets(ctx, P, nme, et)
+                    if rt is None:
+                        continue
+                    done = True
+                    if not rt:
+                        render_problems.setdefault(qual, []).append(f"no link is rendered for a type-{et} entry with the selector {nme!r}")
+                    for t_ in rt:
+                        if et == "7" and qual.endswith("GeminiProtocol"):
+                            # the search link leads to the input prompt, which redirects to <target minus the prefix>?<input>
+                            pfx = prog.class_attr(P, "query_prefix")
+                            pfx = pfx.value if isinstance(pfx, ast.Constant) and isinstance(pfx.value, str) else ""
+                            yield (t_[len(pfx):] if pfx and t_.startswith(pfx) else t_) + "?q", nme, f"the type-{et} link the server renders for {nme!r}, after the input redirect"
+                        elif et == "7" and not qual.endswith("SpartanProtocol"):
+                            # a search link is followed with the query attached
+                            yield t_ + ("?searchrequest=q" if qual.endswith("HTTPProtocol") else "?q"), nme, f"the type-{et} link the server renders for {nme!r}, query attached"
+                        else:
+                            yield t_, nme, f"the type-{et} link the server renders for {nme!r}"
+            if not done:
+                yield up.quote(nme, errors="surrogateescape"), nme, "as advertised"
         yield "/notes;2.txt", "/notes;2.txt", "literal ';'"
         yield "/x&y=z,w+v$", "/x&y=z,w+v$", "literal sub-delims"
         yield "/a%20b?searchrequest=q", "/a b", "with a query"
@@ -784,7 +857,11 @@ def request_target_evaluation(ctx, rep, rule="R05g"):
             continue
         problems = []
         n = 0
-        for target, want, label in targets():
+        seen_t = set()
+        for target, want, label in targets(P, qual):
+            if (target, want) in seen_t:
+                continue
+            seen_t.add((target, want))
             if qual.endswith("SpartanProtocol") and "?" in target:
                 continue  # Spartan has no query part
             facts = mkfacts(target)
@@ -820,5 +897,24 @@ def request_target_evaluation(ctx, rep, rule="R05g"):
             if got != {want}:
                 problems.append(f"request target {target!r} ({label}) becomes selector {sorted(map(str, got))} instead of {want!r}: "
                                 "the object served is not the one the link names")
+        problems.extend(render_problems.get(qual, [])[:2])
         rep.add(rule, f"{h.qualname}: request targets map to the selector they name [{n} targets]", not problems, ctx.where(h), "; ".join(problems[:3]),
                 key=f"{rule}|{h.qualname}")
+    # WAP renders what HTTP renders, below its prefix
+    wap, http = ctx.cls("protocols.wap.WAPProtocol"), ctx.cls("protocols.http.HTTPProtocol")
+    if wap is not None and http is not None:
+        problems = []
+        n = 0
+        for nme in names:
+            for et in ("0", "1", "7"):
+                a, b = rendered_targets(ctx, wap, nme, et), rendered_targets(ctx, http, nme, et)
+                if a is None or b is None:
+                    continue
+                n += 1
+                if sorted(set(a)) != sorted({"/WAPTOP" + x for x in b}):
+                    problems.append(f"for a type-{et} entry {nme!r} WAP links to {sorted(set(a))}, HTTP to {sorted(set(b))}: below its prefix WAP must "
+                                    "link to exactly what HTTP links to (the request is parsed by the same code)")
+        ro = prog.resolve_method(wap, "getrenderstr") or prog.resolve_method(wap, "renderobjinfo")
+        if n:
+            rep.add(rule, f"WAP link targets = prefix + HTTP link targets [{n} entries]", not problems, ctx.where(ro) if ro else "", "; ".join(problems[:2]),
+                    key=f"{rule}|wap-targets")
